@@ -5,7 +5,7 @@
    dispatch, gauss_prior_kind are the executable rational model (Model/C03_GradQ.v).  Both are tied to the code
    on every run by harness/gen_C03.py (gradient AND logd differences of the same object). *)
 From CV Require Import Base.Tac Base.LinAlg Base.QcLin Model.C03_GradR Model.C03_GradQ.
-From CV Require Import Proofs.C03_GradR Proofs.C03_Quad Proofs.C03_QuadR Proofs.C03_GradQ Proofs.C03_Sym Proofs.C03_LikGen Proofs.C03_Lik Proofs.C03_SymR.
+From CV Require Import Proofs.C03_GradR Proofs.C03_Quad Proofs.C03_QuadR Proofs.C03_GradQ Proofs.C03_Sym Proofs.C03_LikGen Proofs.C03_Lik Proofs.C03_SymR Proofs.C03_Gallery.
 From Coq Require Import Reals QArith Qcanon.
 From Coquelicot Require Import Coquelicot.
 
@@ -259,6 +259,53 @@ Theorem C03_lognormal_full : forall (n : nat) (P : list (list R)) (m x d : list 
 Proof. exact lognormal_prior_derive. Qed.
 Print Assumptions C03_lognormal_full.
 
+(* ModifiedHalfNormal, dimension 1: the (N,1) column the code returns holds the gradient vector entry by entry; with
+   C03_separable_partial each entry is the partial derivative *)
+Theorem C03_mhn_column : forall (a b c xs : list R) (i : nat) (g : R),
+  nth_error (fam_grad MHN a b c xs) i = Some g ->
+  nth_error (map (fun g0 => g0 :: nil) (fam_grad MHN a b c xs)) i = Some (g :: nil).
+Proof. intros a b c xs. exact (column_nth (fam_grad MHN a b c xs)). Qed.
+Print Assumptions C03_mhn_column.
+
+(* ---------------------------------------------------------------------------------------------
+   3c. DistributionGallery (hand-derived closed forms of cuqi/distribution/_custom.py): each of the two entries the
+       gradient function returns is the partial derivative of the log-density; constants are universally quantified *)
+Theorem C03_gallery_calsom91 : forall sig delta x1 x2 : R, sig <> 0%R -> delta <> 0%R -> (0 < x1 ^ 2 + x2 ^ 2)%R ->
+  is_derive (fun t => calsom_logd sig delta t x2) x1 (calsom_g1 sig delta x1 x2) /\
+  is_derive (fun t => calsom_logd sig delta x1 t) x2 (calsom_g2 sig delta x1 x2).
+Proof. intros. split; [apply calsom_derive1 | apply calsom_derive2]; assumption. Qed.
+Print Assumptions C03_gallery_calsom91.
+
+Theorem C03_gallery_donut : forall rd s2 x1 x2 : R, s2 <> 0%R -> (0 < x1 ^ 2 + x2 ^ 2)%R ->
+  is_derive (fun t => donut_logd rd s2 t x2) x1 (donut_g1 rd s2 x1 x2) /\
+  is_derive (fun t => donut_logd rd s2 x1 t) x2 (donut_g2 rd s2 x1 x2).
+Proof. intros. split; [apply donut_derive1 | apply donut_derive2]; assumption. Qed.
+Print Assumptions C03_gallery_donut.
+
+Theorem C03_gallery_funnel : forall m0 m1 s1 x1 x2 : R, (0 < s1)%R ->
+  is_derive (fun t => funnel_logd m0 m1 s1 t x2) x1 (funnel_g1 m0 m1 s1 x1 x2) /\
+  is_derive (fun t => funnel_logd m0 m1 s1 x1 t) x2 (funnel_g2 m0 m1 s1 x1 x2).
+Proof. intros. split; [apply funnel_derive1 | apply funnel_derive2; assumption]. Qed.
+Print Assumptions C03_gallery_funnel.
+
+Theorem C03_gallery_banana : forall p11 p12 p22 mu1 mu2 a b x1 x2 : R, a <> 0%R ->
+  is_derive (fun t => banana_logd p11 p12 p22 mu1 mu2 a b t x2) x1 (banana_g1 p11 p12 p22 mu1 mu2 a b x1 x2) /\
+  is_derive (fun t => banana_logd p11 p12 p22 mu1 mu2 a b x1 t) x2 (banana_g2 p11 p12 p22 mu1 mu2 a b x1 x2).
+Proof. intros. split; [apply banana_derive1 | apply banana_derive2]; assumption. Qed.
+Print Assumptions C03_gallery_banana.
+
+Theorem C03_gallery_squiggle : forall p11 p12 p22 mu1 mu2 x1 x2 : R,
+  is_derive (fun t => squiggle_logd p11 p12 p22 mu1 mu2 t x2) x1 (squiggle_g1 p11 p12 p22 mu1 mu2 x1 x2) /\
+  is_derive (fun t => squiggle_logd p11 p12 p22 mu1 mu2 x1 t) x2 (squiggle_g2 p11 p12 p22 mu1 mu2 x1 x2).
+Proof. intros. split; [apply squiggle_derive1 | apply squiggle_derive2]. Qed.
+Print Assumptions C03_gallery_squiggle.
+
+Theorem C03_gallery_mixture : forall (c1 c2 c3 : R * R * R) (x1 x2 : R), (0 < snd c1)%R -> (0 < snd c2)%R -> (0 < snd c3)%R ->
+  is_derive (fun t => mixture_logd c1 c2 c3 t x2) x1 (mixture_g1 c1 c2 c3 x1 x2) /\
+  is_derive (fun t => mixture_logd c1 c2 c3 x1 t) x2 (mixture_g2 c1 c2 c3 x1 x2).
+Proof. intros. split; [apply mixture_derive1 | apply mixture_derive2]; assumption. Qed.
+Print Assumptions C03_gallery_mixture.
+
 (* ---------------------------------------------------------------------------------------------
    4. sum rule: Posterior (likelihood + prior) and multiple-likelihood posterior (any number of densities),
       including the folded additive constant *)
@@ -354,3 +401,9 @@ Proof.
   intros u v Hu Hv. destruct u as [|a [|? ?]]; try discriminate Hu. destruct v as [|b [|? ?]]; try discriminate Hv.
   cbn. ring.
 Qed.
+
+(* non-vacuity of the executable hypotheses: a 2 x 2 symmetric matrix passes wf_matb / symb and the transposition test *)
+Example C03_example_exec :
+  wf_matb 2 [[qcz 2; qcz 1]; [qcz 1; qcz 3]] = true /\ symb 2 [[qcz 2; qcz 1]; [qcz 1; qcz 3]] = true /\
+  rtranspose 2 ((2 :: 1 :: nil) :: (1 :: 3 :: nil) :: nil)%R = ((2 :: 1 :: nil) :: (1 :: 3 :: nil) :: nil)%R.
+Proof. split; [reflexivity|]. split; reflexivity. Qed.
